@@ -11,13 +11,27 @@ pub fn write_file_if_changed<T: AsRef<Path>>(path: T, data: &[u8]) -> Result<boo
         }
     }
 
+    #[cfg(all(veryl_verif, unix))]
+    veryl_path::verif::point("write_file:before-open", path.as_ref());
     let mut file = OpenOptions::new()
         .create(true)
         .write(true)
         .truncate(true)
         .open(path.as_ref())
         .into_diagnostic()?;
+    #[cfg(all(veryl_verif, unix))]
+    let data = {
+        // a crash/pause after the truncation and between two partial writes
+        veryl_path::verif::point("write_file:truncated", path.as_ref());
+        let (head, tail) = data.split_at(data.len() / 2);
+        file.write_all(head).into_diagnostic()?;
+        file.flush().into_diagnostic()?;
+        veryl_path::verif::point("write_file:half-written", path.as_ref());
+        tail
+    };
     file.write_all(data).into_diagnostic()?;
     file.flush().into_diagnostic()?;
+    #[cfg(all(veryl_verif, unix))]
+    veryl_path::verif::point("write_file:written", path.as_ref());
     Ok(true)
 }
